@@ -17,9 +17,9 @@ SM = ['sm.xFast', 'sm.xPark', 'sm.xRecheckAcq', 'sm.xRepark', 'sm.tryXOk', 'sm.t
       'sm.trySFail', 'sm.unlockS.none', 'sm.unlockS.wake', 'sm.unlockS.inner', 'sm.txFast', 'sm.txPark', 'sm.txRecheckAcq',
       'sm.txRepark', 'sm.txTimeout', 'sm.tsFast', 'sm.tsPark', 'sm.tsRecheckAcq', 'sm.tsRepark', 'sm.tsTimeout',
       'sm.sleepStart', 'sm.sleepWake', 'sm.finish']
-TH = ['th.joinStart.running', 'th.joinStart.finished', 'th.joinRet', 'th.work', 'th.finish', 'th.setP', 'th.getP.own',
-      'th.getP.default', 'th.setQ', 'th.copyQP', 'th.copyQP.same', 'th.getQ.own', 'th.getQ.default', 'th.getL',
-      'th.sleepStart', 'th.sleepWake']
+TH = ['th.joinStart.running', 'th.joinStart.finished', 'th.joinRet', 'th.work', 'th.finish', 'th.set', 'th.set.null',
+      'th.set.null.initialised', 'th.get.own', 'th.get.own.null', 'th.get.own.null.initialised', 'th.get.default',
+      'th.get.initialiser', 'th.copy', 'th.copy.null', 'th.sleepStart', 'th.sleepWake']
 RULES = MX + RM + SM + TH
 
 
